@@ -1,88 +1,19 @@
-//! C20: GFA and JSON export of small graphs into a fixed-array sink. The *link structure* is the
-//! subject: which `L` lines / JSON link objects are written for which adjacency, and whether the
-//! JSON punctuation is well formed. (Sequence text rendering is decided under C14/C15.)
+//! C20: GFA and JSON export of small graphs. The *link structure* is the subject: which `L`
+//! lines / JSON link objects are written for which adjacency, with which orientation, and whether
+//! the JSON punctuation is well formed. (Sequence text rendering is decided under C14/C15; the S
+//! line text is still compared base by base here.)
 //!
-//! The oracle never scans the output with a data-dependent loop (such a loop would force a large
-//! global unwinding bound onto every loop of the code under test). Instead the sink records where
-//! each line starts, and the checks use *symbolic line / object indices*:
-//!   (1) every line is well formed and denotes an adjacency of the reference graph,
-//!   (2) two different lines never denote the same adjacency,
-//!   (3) the number of lines equals the number of reference adjacencies,
-//! which together say that the export lists exactly the adjacencies, each once.
+//! The exporters write into a *streaming oracle sink*: it never stores the text (a byte array
+//! written at data-dependent offsets made CBMC run past 17 GB) but keeps only the current line /
+//! object in a small buffer, and, whenever a line or object is complete, checks it against the
+//! reference adjacency matrix and counts it. At the end the harness compares the counts with the
+//! reference: every adjacency listed, none twice, no other.
 use crate::common::*;
 use crate::step_ops::{any_graph, G};
 use debruijn::graph::DebruijnGraph;
 use debruijn::{Dir, Exts, Kmer, Mer};
 use std::fmt;
 use std::io;
-
-pub const CAP: usize = 512;
-pub const MAXL: usize = 32;
-
-/// Byte sink: a fixed array, no heap; remembers where every '\n'-terminated line starts.
-/// `write_fmt` renders through `core::fmt::write` directly (std's default goes through an adapter
-/// carrying an `io::Error`, whose drop glue is costly in CBMC).
-pub struct IoSink {
-    pub buf: [u8; CAP],
-    pub n: usize,
-    pub starts: [usize; MAXL],
-    pub nl: usize,
-}
-impl IoSink {
-    pub fn new() -> Self {
-        let mut s = IoSink {
-            buf: [0; CAP],
-            n: 0,
-            starts: [0; MAXL],
-            nl: 0,
-        };
-        s.starts[0] = 0;
-        s
-    }
-    fn put(&mut self, b: &[u8]) {
-        let l = b.len();
-        if l == 0 {
-            return;
-        }
-        assert!(self.n + l <= CAP, "sink capacity (harness bound) exceeded");
-        self.buf[self.n..self.n + l].copy_from_slice(b);
-        self.n += l;
-        // every newline the exporters write is the last byte of a piece
-        if b[l - 1] == b'\n' {
-            assert!(self.nl + 1 < MAXL, "sink line capacity (harness bound) exceeded");
-            self.nl += 1;
-            self.starts[self.nl] = self.n;
-        }
-    }
-    /// start of line i and one-past-its-newline
-    pub fn line(&self, i: usize) -> (usize, usize) {
-        (self.starts[i], self.starts[i + 1])
-    }
-}
-struct FmtAdapter<'a>(&'a mut IoSink);
-impl fmt::Write for FmtAdapter<'_> {
-    fn write_str(&mut self, s: &str) -> fmt::Result {
-        self.0.put(s.as_bytes());
-        Ok(())
-    }
-}
-impl io::Write for IoSink {
-    fn write(&mut self, b: &[u8]) -> io::Result<usize> {
-        self.put(b);
-        Ok(b.len())
-    }
-    fn write_all(&mut self, b: &[u8]) -> io::Result<()> {
-        self.put(b);
-        Ok(())
-    }
-    fn flush(&mut self) -> io::Result<()> {
-        Ok(())
-    }
-    fn write_fmt(&mut self, args: fmt::Arguments<'_>) -> io::Result<()> {
-        let _ = fmt::write(&mut FmtAdapter(self), args);
-        Ok(())
-    }
-}
 
 fn nib(e: Exts, d: Dir) -> u8 {
     if is_left(d) {
@@ -126,12 +57,149 @@ fn single_pal<K: SymK, const NN: usize, const L: usize>(g: &G<K, NN, L>, u: usiz
     g.lens[u] == K::k() && !g.stranded && t.raw() == t.rc().raw()
 }
 
+macro_rules! io_write_via_feed {
+    ($t:ident, $a:ident) => {
+        struct $a<'a, const NN: usize, const L: usize>(&'a mut $t<NN, L>);
+        impl<const NN: usize, const L: usize> fmt::Write for $a<'_, NN, L> {
+            fn write_str(&mut self, s: &str) -> fmt::Result {
+                self.0.feed(s.as_bytes());
+                Ok(())
+            }
+        }
+        impl<const NN: usize, const L: usize> io::Write for $t<NN, L> {
+            fn write(&mut self, b: &[u8]) -> io::Result<usize> {
+                self.feed(b);
+                Ok(b.len())
+            }
+            fn write_all(&mut self, b: &[u8]) -> io::Result<()> {
+                self.feed(b);
+                Ok(())
+            }
+            fn flush(&mut self) -> io::Result<()> {
+                Ok(())
+            }
+            /// renders through `core::fmt::write` directly (std's default goes through an adapter
+            /// carrying an `io::Error`, whose drop glue is costly in CBMC)
+            fn write_fmt(&mut self, args: fmt::Arguments<'_>) -> io::Result<()> {
+                let _ = fmt::write(&mut $a(self), args);
+                Ok(())
+            }
+        }
+    };
+}
+
+// ------------------------------------------------------------------------------------ GFA
+const LINE: usize = 24;
+
+/// Streaming oracle for GFA text. Holds the reference (adjacency matrix, sequences); every
+/// completed line is parsed and checked, and counted per adjacency / per node.
+pub struct GfaSink<const NN: usize, const L: usize> {
+    cur: [u8; LINE],
+    col: usize,
+    lines: usize,
+    a: [[bool; 4]; 4],
+    seqs: [[u8; L]; NN],
+    lens: [usize; NN],
+    k1: u8,
+    /// times adjacency {x,y} was listed, stored at [min][max]
+    pub links: [[u8; 4]; 4],
+    pub s_lines: [u8; NN],
+}
+impl<const NN: usize, const L: usize> GfaSink<NN, L> {
+    fn feed(&mut self, b: &[u8]) {
+        if b.len() > 12 {
+            // the only long piece is the header literal (with its newline); handled without a
+            // loop so that the global unwinding bound can stay small
+            let h = b"H\tVN:Z:debruijn-rs\n";
+            assert!(b.len() == 19 && self.lines == 0 && self.col == 0, "unexpected long piece of GFA text");
+            assert!(
+                b[0] == h[0] && b[1] == h[1] && b[2] == h[2] && b[3] == h[3] && b[4] == h[4] && b[5] == h[5]
+                    && b[6] == h[6] && b[7] == h[7] && b[8] == h[8] && b[9] == h[9] && b[10] == h[10]
+                    && b[11] == h[11] && b[12] == h[12] && b[13] == h[13] && b[14] == h[14] && b[15] == h[15]
+                    && b[16] == h[16] && b[17] == h[17] && b[18] == h[18],
+                "GFA header line"
+            );
+            self.lines = 1;
+            return;
+        }
+        // loop-free (pieces are short): keeps the global unwinding bound independent of the text.
+        // Every newline the exporter writes is the last byte of a piece: one commit per piece.
+        let l = b.len();
+        assert!(l <= 12);
+        let ends_nl = l > 0 && b[l - 1] == b'\n';
+        let dl = if ends_nl { l - 1 } else { l };
+        self.step(b, dl, 0);
+        self.step(b, dl, 1);
+        self.step(b, dl, 2);
+        self.step(b, dl, 3);
+        self.step(b, dl, 4);
+        self.step(b, dl, 5);
+        self.step(b, dl, 6);
+        self.step(b, dl, 7);
+        self.step(b, dl, 8);
+        self.step(b, dl, 9);
+        self.step(b, dl, 10);
+        if ends_nl {
+            self.commit();
+            self.col = 0;
+        }
+    }
+    #[inline(always)]
+    fn step(&mut self, b: &[u8], dl: usize, i: usize) {
+        if i < dl {
+            let c = b[i];
+            assert!(c != b'\n', "a newline inside a piece of GFA text");
+            assert!(self.col < LINE, "a GFA line longer than the harness bound");
+            self.cur[self.col] = c;
+            self.col += 1;
+        }
+    }
+    fn commit(&mut self) {
+        let l = &self.cur;
+        if self.lines == 0 {
+            assert!(false, "GFA text does not start with the header line");
+        } else if l[0] == b'S' {
+            // "S\t<id>\t<sequence>"
+            assert!(l[1] == b'\t' && l[3] == b'\t', "S line format");
+            let u = (l[2] - b'0') as usize;
+            assert!(u < NN, "S line names a node of the graph");
+            assert!(self.col == 4 + self.lens[u], "S line carries the whole node sequence");
+            let mut j = 0;
+            while j < L {
+                if j < self.lens[u] {
+                    assert!(l[4 + j] == b"ACGT"[self.seqs[u][j] as usize], "S line sequence");
+                }
+                j += 1;
+            }
+            self.s_lines[u] += 1;
+        } else {
+            // "L\t<u>\t<+|->\t<v>\t<+|->\t<K-1>M"
+            assert!(self.col == 12 && l[0] == b'L', "L line format");
+            assert!(l[1] == b'\t' && l[3] == b'\t' && l[5] == b'\t' && l[7] == b'\t' && l[9] == b'\t', "L line format");
+            assert!(l[10] == b'0' + self.k1 && l[11] == b'M', "L line overlap is K-1");
+            let u = (l[2] - b'0') as usize;
+            let v = (l[6] - b'0') as usize;
+            assert!(u < NN && v < NN, "L line names nodes of the graph");
+            assert!((l[4] == b'+' || l[4] == b'-') && (l[8] == b'+' || l[8] == b'-'), "L line orientation signs");
+            // leave u by its right side iff '+'; enter v by its left side iff '+'
+            let x = 2 * u + if l[4] == b'+' { 1 } else { 0 };
+            let y = 2 * v + if l[8] == b'+' { 0 } else { 1 };
+            assert!(self.a[x][y], "GFA lists a link that is not an adjacency of the graph (wrong node, side or orientation)");
+            let (lo, hi) = if x <= y { (x, y) } else { (y, x) };
+            self.links[lo][hi] += 1;
+        }
+        self.lines += 1;
+    }
+}
+io_write_via_feed!(GfaSink, GfaFmt);
+
 /// C20 (GFA) on an NN-node graph (NN <= 2, ids are single digits).
 pub fn gfa<K: SymK, const NN: usize, const L: usize>(lens: [usize; NN]) {
     let g = any_graph::<K, NN, L>(lens);
     g.assume_distinct_ends();
     let a = adjacency(&g);
     // graph validity: extensions are reciprocal (u reaches v <=> v reaches u through the facing side)
+    let mut any_pal = false;
     let mut x = 0;
     while x < 2 * NN {
         let mut y = 0;
@@ -139,248 +207,234 @@ pub fn gfa<K: SymK, const NN: usize, const L: usize>(lens: [usize; NN]) {
             kani::assume(a[x][y] == a[y][x]);
             y += 1;
         }
-        x += 1;
-    }
-    // number of adjacencies = unordered pairs of node sides
-    let mut n_adj = 0usize;
-    let mut any_pal = false;
-    let mut x = 0;
-    while x < 2 * NN {
-        let mut y = x;
-        while y < 2 * NN {
-            if a[x][y] {
-                n_adj += 1;
-            }
-            y += 1;
-        }
         any_pal |= single_pal(&g, x / 2);
         x += 1;
     }
-    let k = K::k();
-
-    let mut w = IoSink::new();
+    let mut w = GfaSink::<NN, L> {
+        cur: [0; LINE],
+        col: 0,
+        lines: 0,
+        a,
+        seqs: g.seqs,
+        lens,
+        k1: K::k() as u8 - 1,
+        links: [[0; 4]; 4],
+        s_lines: [0; NN],
+    };
     let r = g.g.write_gfa(&mut w);
     assert!(r.is_ok());
-    assert!(w.starts[w.nl] == w.n); // output ends with a newline
-
-    // ---- line 0: the header
-    let h = b"H\tVN:Z:debruijn-rs\n";
-    assert!(w.nl >= 1 + NN && w.line(0) == (0, 19));
-    assert!(
-        w.buf[0] == h[0] && w.buf[1] == h[1] && w.buf[2] == h[2] && w.buf[3] == h[3] && w.buf[4] == h[4]
-            && w.buf[5] == h[5] && w.buf[6] == h[6] && w.buf[7] == h[7] && w.buf[8] == h[8] && w.buf[9] == h[9]
-            && w.buf[10] == h[10] && w.buf[11] == h[11] && w.buf[12] == h[12] && w.buf[13] == h[13]
-            && w.buf[14] == h[14] && w.buf[15] == h[15] && w.buf[16] == h[16] && w.buf[17] == h[17] && w.buf[18] == h[18]
-    );
-
-    // ---- one arbitrary line after the header: S or L, well formed
-    let li = any_index(MAXL - 1);
-    kani::assume(li >= 1 && li < w.nl);
-    let (p, q) = w.line(li);
-    let is_s = w.buf[p] == b'S';
-    // classify an L line: -> (adjacency index pair) ; leave by the right side iff '+', enter by the left side iff '+'
-    let parse_l = |p: usize, q: usize| -> (usize, usize) {
-        assert!(q - p == 13);
-        assert!(w.buf[p] == b'L' && w.buf[p + 1] == b'\t' && w.buf[p + 3] == b'\t' && w.buf[p + 5] == b'\t');
-        assert!(w.buf[p + 7] == b'\t' && w.buf[p + 9] == b'\t' && w.buf[p + 10] == b'0' + (k as u8 - 1));
-        assert!(w.buf[p + 11] == b'M' && w.buf[p + 12] == b'\n');
-        let u = (w.buf[p + 2] - b'0') as usize;
-        let v = (w.buf[p + 6] - b'0') as usize;
-        assert!(u < NN && v < NN);
-        assert!(w.buf[p + 4] == b'+' || w.buf[p + 4] == b'-');
-        assert!(w.buf[p + 8] == b'+' || w.buf[p + 8] == b'-');
-        let x = 2 * u + if w.buf[p + 4] == b'+' { 1 } else { 0 };
-        let y = 2 * v + if w.buf[p + 8] == b'+' { 0 } else { 1 };
-        (x, y)
-    };
-    if is_s {
-        // "S\t<id>\t<sequence>\n"
-        let u = (w.buf[p + 2] - b'0') as usize;
-        assert!(w.buf[p + 1] == b'\t' && u < NN && w.buf[p + 3] == b'\t');
-        assert!(q - p == 4 + lens[u] + 1);
-        let j = any_index(L);
-        kani::assume(j < lens[u]);
-        assert!(w.buf[p + 4 + j] == b"ACGT"[g.seqs[u][j] as usize]);
-    } else {
-        let (x, y) = parse_l(p, q);
-        // (1) no link that is not an adjacency of the graph
-        assert!(a[x][y]);
+    assert!(w.col == 0, "output ends with a newline");
+    let mut u = 0;
+    while u < NN {
+        assert!(w.s_lines[u] == 1, "every node is listed exactly once");
+        u += 1;
     }
-    // every node has its S line: exactly NN of the lines are S lines -- S lines are the ones that
-    // are not 13 bytes long or do not start with 'L'; count them through the line total:
-    // (3) #L lines == #adjacencies   (unless a palindromic single-k-mer node is involved)
-    let n_lines = w.nl - 1; // without the header
-    // node i's S line is the first line after the previous node's block; locate node 0's
-    assert!(w.buf[w.starts[1]] == b'S' && w.buf[w.starts[1] + 2] == b'0');
-    // (2) two different L lines never denote the same adjacency
-    let l2 = any_index(MAXL - 1);
-    kani::assume(l2 >= 1 && l2 < w.nl && l2 != li);
-    let (p2, q2) = w.line(l2);
-    let is_s2 = w.buf[p2] == b'S';
-    if is_s && is_s2 {
-        // two S lines are for different nodes
-        assert!(w.buf[p + 2] != w.buf[p2 + 2]);
-    }
-    if !any_pal {
-        if !is_s && !is_s2 {
-            let (x, y) = parse_l(p, q);
-            let (x2, y2) = parse_l(p2, q2);
-            assert!(!((x == x2 && y == y2) || (x == y2 && y == x2)));
+    // one arbitrary pair of node sides
+    let x = any_index(2 * NN);
+    let y = any_index(2 * NN);
+    kani::assume(x <= y);
+    if a[x][y] {
+        assert!(w.links[x][y] >= 1, "GFA omits an adjacency of the graph");
+        // both sides of a palindromic single-k-mer node are the same k-mer and may each report it
+        if !single_pal(&g, x / 2) && !single_pal(&g, y / 2) {
+            assert!(w.links[x][y] == 1, "GFA lists an adjacency more than once");
         }
-        // with at most NN S lines (distinct node ids) and no duplicate L line, the totals force
-        // exactly NN S lines and every adjacency listed
-        assert!(n_lines == NN + n_adj);
     } else {
-        // both sides of a palindromic single-k-mer node are the same k-mer: each adjacency may
-        // be reported from either side, but not fewer lines than adjacencies, none if none
-        assert!(n_lines >= NN && (n_lines > NN) == (n_adj > 0));
+        assert!(w.links[x][y] == 0);
     }
     kani::cover!(!any_pal && a[0][0]);
     kani::cover!(!any_pal && a[1][1]);
     kani::cover!(!any_pal && a[0][1]);
-    kani::cover!(!any_pal && n_adj == 0);
-    kani::cover!(any_pal && n_adj > 0);
+    kani::cover!(K::k() % 2 == 1 || (any_pal && a[x][y])); // palindromes exist for even K only
+    kani::cover!(NN < 2 || (a[1][2] && !any_pal));
+    kani::cover!(NN < 2 || (a[1][3] && !any_pal));
     core::mem::forget(g);
 }
 
-/// C20 (JSON) on an NN-node graph (NN <= 2): the output is the fixed line grammar
-///   `{` / `"nodes": [` / one line per node / `],` / `"links": [` / one line per node that has
-///   right-going links / `]` / `` / `}`
-/// and is well-formed JSON exactly when every node line but the last and every link line but the
-/// last ends with a comma, and objects inside a link line are comma-separated. The link objects
-/// are exactly the right-going adjacencies of the reference graph, each once.
+// ------------------------------------------------------------------------------------ JSON
+const T_START: u8 = 0;
+const T_OPEN: u8 = 1;
+const T_CLOSE: u8 = 2;
+const T_COMMA: u8 = 3;
+const T_COLON: u8 = 4;
+const T_STR: u8 = 5;
+const T_LIT: u8 = 6;
+
+/// Streaming structural JSON validator + link-object oracle. Token rules enforced: a value
+/// (string, literal, `{`, `[`) may only follow `[`/`{`/`,`/`:` or the start; `,` only follows a
+/// value or a close; `:` only a string; a close never follows `,`; brackets balance. (No string
+/// escapes occur in this output.) Link objects (inside the 2nd top-level array) are decoded from
+/// their 2nd/4th/6th strings and checked against the reference right-going adjacencies.
+pub struct JsonSink<const NN: usize, const L: usize> {
+    in_str: bool,
+    last: u8,
+    depth: u8,
+    arrays: u8, // top-level arrays opened so far: 1 = "nodes", 2 = "links"
+    strs: u8,   // strings completed in the current depth-3 object
+    first: u8,  // first byte of the string being read
+    slen: u8,
+    f1: u8, // first byte of the 2nd / 4th / 6th string of the current object
+    f2: u8,
+    f3: u8,
+    a: [[bool; 4]; 4],
+    pub nodes: [u8; NN],
+    /// [source][target][0 = arrives on the left side, 1 = right]
+    pub links: [[[u8; 2]; NN]; NN],
+}
+impl<const NN: usize, const L: usize> JsonSink<NN, L> {
+    fn value_may_start(&self) {
+        assert!(
+            self.last == T_START || self.last == T_OPEN || self.last == T_COMMA || self.last == T_COLON,
+            "malformed JSON: a value follows a value or a closing bracket without a comma"
+        );
+    }
+    fn feed(&mut self, b: &[u8]) {
+        // loop-free (pieces are at most 13 bytes): keeps the global unwinding bound small
+        assert!(b.len() <= 16);
+        self.step(b, 0);
+        self.step(b, 1);
+        self.step(b, 2);
+        self.step(b, 3);
+        self.step(b, 4);
+        self.step(b, 5);
+        self.step(b, 6);
+        self.step(b, 7);
+        self.step(b, 8);
+        self.step(b, 9);
+        self.step(b, 10);
+        self.step(b, 11);
+        self.step(b, 12);
+        self.step(b, 13);
+        self.step(b, 14);
+        self.step(b, 15);
+    }
+    #[inline(always)]
+    fn step(&mut self, b: &[u8], i: usize) {
+        if i < b.len() {
+            self.byte(b[i]);
+        }
+    }
+    fn byte(&mut self, c: u8) {
+        if self.in_str {
+            if c == b'"' {
+                self.in_str = false;
+                self.last = T_STR;
+                if self.depth == 3 {
+                    self.strs += 1;
+                    if self.strs == 2 {
+                        self.f1 = self.first;
+                    } else if self.strs == 4 {
+                        self.f2 = self.first;
+                    } else if self.strs == 6 {
+                        self.f3 = self.first;
+                    }
+                }
+            } else {
+                if self.slen == 0 {
+                    self.first = c;
+                }
+                if self.slen < 200 {
+                    self.slen += 1;
+                }
+            }
+            return;
+        }
+        if c == b'"' {
+            self.value_may_start();
+            self.in_str = true;
+            self.slen = 0;
+            self.first = 0;
+        } else if c == b'{' || c == b'[' {
+            self.value_may_start();
+            self.depth += 1;
+            if c == b'[' && self.depth == 2 {
+                self.arrays += 1;
+            }
+            if c == b'{' && self.depth == 3 {
+                self.strs = 0;
+            }
+            self.last = T_OPEN;
+        } else if c == b'}' || c == b']' {
+            assert!(self.last != T_COMMA, "malformed JSON: a comma directly before a closing bracket");
+            assert!(self.last != T_COLON && self.depth > 0, "malformed JSON: unbalanced bracket");
+            if c == b'}' && self.depth == 3 {
+                self.object_done();
+            }
+            self.depth -= 1;
+            self.last = T_CLOSE;
+        } else if c == b',' {
+            assert!(
+                self.last == T_STR || self.last == T_LIT || self.last == T_CLOSE,
+                "malformed JSON: a comma that does not follow a value"
+            );
+            self.last = T_COMMA;
+        } else if c == b':' {
+            assert!(self.last == T_STR, "malformed JSON: a colon that does not follow a key");
+            self.last = T_COLON;
+        } else if c == b' ' || c == b'\n' {
+        } else {
+            // a literal (number, null): starts like a value, continues as itself
+            if self.last != T_LIT {
+                self.value_may_start();
+            }
+            self.last = T_LIT;
+        }
+    }
+    fn object_done(&mut self) {
+        if self.arrays == 1 {
+            // node object: {"id":"<i>", ...}: 2nd string is the id
+            let u = (self.f1 - b'0') as usize;
+            assert!(self.strs >= 2 && u < NN, "node object names a node of the graph");
+            self.nodes[u] += 1;
+        } else {
+            // link object: {"source":"u","target":"v","D":"L|R"}
+            assert!(self.arrays == 2 && self.strs == 6, "link object has source, target and D");
+            let u = (self.f1 - b'0') as usize;
+            let v = (self.f2 - b'0') as usize;
+            assert!(u < NN && v < NN, "link object names nodes of the graph");
+            assert!(self.f3 == b'L' || self.f3 == b'R', "link object arrival side");
+            let s = if self.f3 == b'L' { 0 } else { 1 };
+            assert!(self.a[2 * u + 1][2 * v + s], "JSON lists a link that is not a right-going adjacency of the graph");
+            self.links[u][v][s] += 1;
+        }
+    }
+}
+io_write_via_feed!(JsonSink, JsonFmt);
+
+/// C20 (JSON) on an NN-node graph (NN <= 2): structurally well-formed, every node listed once,
+/// the link objects are exactly the right-going adjacencies, each once.
 pub fn json<K: SymK, const NN: usize, const L: usize>(lens: [usize; NN]) {
     let g = any_graph::<K, NN, L>(lens);
     g.assume_distinct_ends();
     let a = adjacency(&g);
-    let mut n_right = 0usize;
-    let mut u = 0;
-    while u < NN {
-        let mut y = 0;
-        while y < 2 * NN {
-            if a[2 * u + 1][y] {
-                n_right += 1;
-            }
-            y += 1;
-        }
-        u += 1;
-    }
-
-    let mut w = IoSink::new();
+    let mut w = JsonSink::<NN, L> {
+        in_str: false,
+        last: T_START,
+        depth: 0,
+        arrays: 0,
+        strs: 0,
+        first: 0,
+        slen: 0,
+        f1: 0,
+        f2: 0,
+        f3: 0,
+        a,
+        nodes: [0; NN],
+        links: [[[0; 2]; NN]; NN],
+    };
     g.g.to_json_rest(|_d: &u8| serde_json::Value::Null, &mut w, None);
-    assert!(w.starts[w.nl] == w.n);
-    let at = |i: usize| w.buf[i];
-
-    // ---- fixed frame
-    assert!(w.nl >= NN + 7);
-    let nlink = w.nl - (NN + 7);
-    assert!(nlink <= NN);
-    let base = NN + 4;
-    assert!(w.line(0) == (0, 2) && at(0) == b'{');
-    let (p, q) = w.line(1);
-    assert!(q - p == 11 && at(p) == b'"' && at(p + 1) == b'n' && at(p + 8) == b' ' && at(p + 9) == b'[');
-    let (p, q) = w.line(NN + 2);
-    assert!(q - p == 3 && at(p) == b']' && at(p + 1) == b',');
-    let (p, q) = w.line(NN + 3);
-    assert!(q - p == 11 && at(p) == b'"' && at(p + 1) == b'l' && at(p + 8) == b' ' && at(p + 9) == b'[');
-    let (p, q) = w.line(base + nlink);
-    assert!(q - p == 2 && at(p) == b']');
-    let (p, q) = w.line(base + nlink + 1);
-    assert!(q - p == 1);
-    let (p, q) = w.line(base + nlink + 2);
-    assert!(q - p == 2 && at(p) == b'}');
-
-    // ---- one arbitrary node line: `{"id":"<i>",...,"Se":"<bases>"}` + `,` iff not the last node
-    let i = any_index(NN);
-    let (p, q) = w.line(2 + i);
-    let comma = if i + 1 < NN { 1 } else { 0 };
-    assert!(q - p == 33 + lens[i] + comma + 1);
-    assert!(at(p) == b'{' && at(p + 1) == b'"' && at(p + 2) == b'i' && at(p + 3) == b'd' && at(p + 4) == b'"');
-    assert!(at(p + 5) == b':' && at(p + 6) == b'"' && at(p + 7) == b'0' + i as u8 && at(p + 8) == b'"');
-    assert!(at(p + 9) == b',' && at(p + 10) == b'"' && at(p + 11) == b'L' && at(p + 12) == b'"' && at(p + 13) == b':');
-    assert!(at(p + 14) == b'0' + lens[i] as u8 && at(p + 15) == b',');
-    let e = q - 1 - comma; // one past the closing brace
-    assert!(at(e - 1) == b'}' && at(e - 2) == b'"');
-    assert!(comma == 0 || at(e) == b',');
-    let j = any_index(L);
-    kani::assume(j < lens[i]);
-    assert!(at(e - 2 - lens[i] + j) == b"ACGT"[g.seqs[i][j] as usize]);
-
-    // ---- link lines: length 36*m + c, c = trailing comma, present iff not the last link line
-    let m_of = |t: usize| -> (usize, usize, usize) {
-        let (p, q) = w.line(base + t);
-        let len = q - p - 1; // without the newline
-        (p, len / 36, len % 36)
-    };
-    let mut total = 0usize;
-    let mut t = 0;
-    while t < NN {
-        if t < nlink {
-            let (_p, m, c) = m_of(t);
-            assert!(m >= 1 && c <= 1);
-            // well-formedness: a comma separates consecutive link lines and none trails the last
-            assert!((c == 1) == (t + 1 < nlink));
-            total += m;
-        }
-        t += 1;
-    }
-    // (3) as many link objects as right-going adjacencies
-    assert!(total == n_right);
-
-    // (1) one arbitrary link object: template, denotes a right-going adjacency, separators
-    let parse = |t: usize, j: usize| -> (usize, usize, usize) {
-        let (p, m, c) = m_of(t);
-        let o = p + 36 * j;
-        assert!(at(o) == b'{' && at(o + 1) == b'"' && at(o + 2) == b's' && at(o + 9) == b'"' && at(o + 10) == b':');
-        assert!(at(o + 11) == b'"' && at(o + 13) == b'"' && at(o + 14) == b',' && at(o + 15) == b'"' && at(o + 16) == b't');
-        assert!(at(o + 22) == b'"' && at(o + 23) == b':' && at(o + 24) == b'"' && at(o + 26) == b'"' && at(o + 27) == b',');
-        assert!(at(o + 28) == b'"' && at(o + 29) == b'D' && at(o + 30) == b'"' && at(o + 31) == b':' && at(o + 32) == b'"');
-        assert!(at(o + 34) == b'"' && at(o + 35) == b'}');
-        // separator after the object: ',' between objects and for the trailing comma, else newline
-        if j + 1 < m || c == 1 {
-            assert!(at(o + 36) == b',');
-        } else {
-            assert!(at(o + 36) == b'\n');
-        }
-        let u = (at(o + 12) - b'0') as usize;
-        let v = (at(o + 25) - b'0') as usize;
-        assert!(u < NN && v < NN);
-        assert!(at(o + 33) == b'L' || at(o + 33) == b'R');
-        (u, v, if at(o + 33) == b'L' { 0 } else { 1 })
-    };
-    if nlink > 0 {
-        let t1 = any_index(NN);
-        kani::assume(t1 < nlink);
-        let (_p, m1, _c) = m_of(t1);
-        let j1 = any_index(4);
-        kani::assume(j1 < m1);
-        assert!(m1 <= 4);
-        let (u1, v1, s1) = parse(t1, j1);
-        assert!(a[2 * u1 + 1][2 * v1 + s1]);
-        // (2) no right-going link is listed twice
-        let t2 = any_index(NN);
-        kani::assume(t2 < nlink);
-        let (_p, m2, _c) = m_of(t2);
-        let j2 = any_index(4);
-        kani::assume(j2 < m2 && (t2 != t1 || j2 != j1));
-        let (u2, v2, s2) = parse(t2, j2);
-        assert!(!(u1 == u2 && v1 == v2 && s1 == s2));
-    }
-    kani::cover!(nlink == NN);
-    kani::cover!(nlink == 0);
-    kani::cover!(NN < 2 || (nlink == 1 && a[1][0])); // node 0 has a right-going link, the last node has none
-    kani::cover!(total >= 2);
+    assert!(w.depth == 0 && !w.in_str && w.last == T_CLOSE && w.arrays == 2, "JSON document is complete");
+    let u = any_index(NN);
+    let v = any_index(NN);
+    let s = any_index(2);
+    assert!(w.nodes[u] == 1, "every node is listed exactly once");
+    assert!(w.links[u][v][s] == a[2 * u + 1][2 * v + s] as u8, "every right-going link is listed exactly once");
+    kani::cover!(a[1][0] || a[1][1]);
+    // the last node has no right-going link, an earlier one has
+    kani::cover!(NN < 2 || ((a[1][2] || a[1][3]) && !(a[3][0] || a[3][1] || a[3][2] || a[3][3])));
+    // several right-going links from one node
+    kani::cover!(NN < 2 || (a[1][2] && a[1][3]));
+    // link-free
+    kani::cover!(!(a[1][0] || a[1][1] || a[1][2] || a[1][3] || a[3][0] || a[3][1] || a[3][2] || a[3][3]));
     core::mem::forget(g);
-}
-
-/// probe: cost of one formatted line with concrete arguments
-pub fn probe_fmt_line() {
-    use std::io::Write;
-    let mut w = IoSink::new();
-    let id: usize = 0;
-    let t: usize = if kani::any() { 1 } else { 0 };
-    let d = if kani::any() { "+" } else { "-" };
-    writeln!(&mut w, "L\t{}\t-\t{}\t{}\t{}M", id, t, d, 2usize).unwrap();
-    assert!(w.n == 13 && w.nl == 1);
-    assert!(w.buf[6] == b'0' + t as u8);
 }
